@@ -26,6 +26,31 @@ DESC = {
  "C19": dict(property="C19", change="concatenate's manual argument canonicalisation reads the positional dtype only when four positionals are given (`rest[1] if len(rest) > 2`)",
              needs="jnp.concatenate((a, b), axis, dtype) with dtype as third positional argument and a dtype different from the promoted input dtype", caught_by="C19 R-C19d manual positional canonicalisation",
              strengthened="R-C19d was added because of this change; signature subsumption cannot see inside (*args, **kwargs) wrappers"),
+ "C01": dict(property="C01", change="lax.atan2 lowering reuses the x>0 mask where x>=0 was built from Greater|Equal: for x == 0, y < 0 the model returns -pi instead of +pi",
+             needs="an element with numerator exactly 0 and a strictly negative denominator", caught_by="nothing (missed)",
+             strengthened="not attempted: a wrong value of one lowering at one point is numerics, which DESIGN.md §3 C01 declines; no structural clause distinguishes the two graphs"),
+ "C03": dict(property="C03", change="while_loop: the slice selecting the Loop's pass-through body-constant outputs drops `output_offset` (the optional leading predicate output)",
+             needs="a vmapped while_loop (batched predicate) whose body closes over a traced value", caught_by="C03 R-C03e output-layout agreement",
+             strengthened="R-C03e and sa/layout.py (symbolic list layouts / prefix sums) were added because of this change; before nothing looked at index arithmetic"),
+ "C04": dict(property="C04", change="_LayoutAdapter.bind_input records symbolic-dim origins with the NHWC variable shape against the NCHW graph input (record_var_symbolic_dim_origins(var, nchw_input_val))",
+             needs="inputs_as_nchw on an input with a symbolic non-batch dim that is read before any op re-records origins, with H != C or W != H", caught_by="C04 R-C04c and C12 R-C12a", strengthened="none needed"),
+ "C08": dict(property="C08", change="remove_redundant_reshape_pairs_ir refreshes the folded chain in consumer-to-producer order (`allowed_nodes` instead of `allowed_fwd`)",
+             needs="a Reshape sandwich with at least two pass-through element-wise ops whose stale annotation survives the later propagate passes", caught_by="C08 R-C08c refresh order",
+             strengthened="R-C08c was added because of this change; while probing, the seeding agent also noticed stale shapes on the UNCHANGED tree (set iteration in the transpose-forest fold) - confirmed as a genuine defect and repaired (fix 16c99d0)"),
+ "C09": dict(property="C09", change="_normalize_input_specs canonicalises example-array dtypes with jax.dtypes.canonicalize_dtype before the scoped x64 flag is entered",
+             needs="enable_double_precision=True with float64 example arrays while the process-wide x64 flag is off", caught_by="C09 R-C09c x64-sensitive call outside the scoped flag",
+             strengthened="R-C09c was added because of this change"),
+ "C12": dict(property="C12", change="_LayoutAdapter.bind_input records origins with axes=_NHWC_TO_NCHW_PERM (forward permutation where the inverse is needed)",
+             needs="inputs_as_nchw input with symbolic H/W/C whose runtime value is materialised, extents different from each other", caught_by="C12 R-C12a origin-on-external-value", strengthened="none needed"),
+ "C15": dict(property="C15", change="_save_model_proto decides `spills` itself before onnx.save_model (raw_data length vs threshold) and deletes any existing sidecar when it thinks nothing spilled",
+             needs="a model whose spill decision differs between the exporter's estimate and onnx (e.g. tensors without raw_data), or a re-export next to a referenced sidecar", caught_by="C15 R-C15c",
+             strengthened="R-C15c was added because of this change"),
+ "C16": dict(property="C16", change="scan: the reverse rejection only fires when num_scan > 0", needs="carry-only reverse scan (xs=None) with a step-dependent output", caught_by="C16 R-C16d (re-decided C06 R-C06b instance) and C06 R-C06b",
+             strengthened="C16 now re-decides the rejection instances of C06 R-C06b / C04 R-C04b under R-C16d; before, only the C06 check reported it"),
+ "C17": dict(property="C17", change="BOOL source accepts every `intermediate.is_floating_point()` type, including FLOAT8E8M0 (which has no zero)", needs="Cast BOOL -> FLOAT8E8M0 -> BOOL in a graph",
+             caught_by="C17 R-C17b decision::BOOL->FLOAT8E8M0->BOOL", strengthened="the reference relation was extended to the low-bit float formats (value sets enumerated from bit layouts); before, a True decision on them was UNRESOLVED"),
+ "C18": dict(property="C18", change="_run_allclose takes its ORT session from an lru_cache helper keyed by (path, file size)", needs="validate, re-export a different model of the same size to the same path, validate again in one process",
+             caught_by="C18 R-C18e", strengthened="R-C18e was added because of this change"),
 }
 for sid, d in DESC.items():
     p = os.path.join(V, "seeded", sid, "meta.json")
